@@ -336,6 +336,15 @@ ADDENDA11 = {
     "C20": ("; identity rule for the emulator's lane scaling of staged scalars; every compile request compiles (shared with C19)", " Also decides that an application opcode's scalar reaches its emulateN unaltered, and that compiling an already compiled program compiles it again (a rule set registered in between takes effect)."),
 }
 
+# Additions after the thirteenth (partial) seeding round
+ADDENDA12 = {
+    "C07": ("; accumulator walks cover all four slots (shared with C17); printed attribute setters carry their own attribute", " Also decides that every back-end walk that picks out accumulators covers ORC_VAR_A1..A4, and that orcc prints each orc_program_set_<attr> call with p-><attr>."),
+    "C11": ("; no write to the register of a live source in two-operand rules (shared with C17)", " Also decides that an SSE/MMX rule leaves its source registers as they were unless the destination shares them."),
+    "C15": ("; exactness of the parser's opcode lookup", " Also decides that the opcode a line's literals are sized by is found by its whole name."),
+    "C17": ("; accumulator walks cover all four slots; no write to the register of a live source (scratch aliases followed, undo idioms modelled)", " Also decides that every accumulator is zeroed before the loops, and that no rule modifies a source register that a later instruction may read."),
+    "C18": ("; result flush in the C generator's templates", " Also decides that the C back end's templates of the result-flushing float opcodes store through ORC_DENORMAL."),
+}
+
 
 def main():
     props = [json.loads(l) for l in open(os.path.join(VERIF, "properties.jsonl"))]
@@ -377,6 +386,9 @@ def main():
                 tech, text = tech + a[0], text + a[1]
             if pid in ADDENDA11:
                 a = ADDENDA11[pid]
+                tech, text = tech + a[0], text + a[1]
+            if pid in ADDENDA12:
+                a = ADDENDA12[pid]
                 tech, text = tech + a[0], text + a[1]
             checks.append({
                 "property_id": pid,
